@@ -28,7 +28,7 @@ TIMEOUT = {'quick': 1500, 'thorough': 10800}
 WORKERS = 10
 ARRANGEMENTS = ('same-dir', 'subdirs-I', 'other-cwd-relative', 'absolute', 'include-twice', 'dotdot-include',
                 'dot-slash-include', 'absolute-include', 'I-subpath-nested', 'files-named-like-types',
-                'declaration-less-file', 'two-dirs-mixed')
+                'declaration-less-file', 'two-dirs-mixed', 'I-order')
 
 
 def shards(ctx):
@@ -174,6 +174,9 @@ def run_case(acc, audit, wd, idx, sch, rng, arrangement, want_cpp, seed):
                       'd%d' % i if arrangement == 'dotdot-include' else
                       # two directories; a file names siblings barely and the others as ../dK/f, the others first
                       'd%d' % (i % 2) if arrangement == 'two-dirs-mixed' else
+                      # the includer sits alone in app/; its includes are found through the FIRST of two -I directories
+                      # (given in non-alphabetical order); the second holds same-named files with wider types
+                      ('app' if i == len(files) - 1 else 'zz_inc') if arrangement == 'I-order' else
                       # the last file lives in app/ and names its includes "proto/<file>", found through -I inc; the
                       # other files are siblings in inc/proto/ and include each other by bare name; app/ goes first
                       ('app' if i == len(files) - 1 else 'inc/proto') if arrangement == 'I-subpath-nested' else '')
@@ -204,6 +207,16 @@ def run_case(acc, audit, wd, idx, sch, rng, arrangement, want_cpp, seed):
             pre = lambda f: f                                                  # noqa
         with open(paths[fn], 'w') as f:
             f.write(file_text(sch, part, incs, pre))
+        if arrangement == 'I-order':
+            for k_ in ('zz_inc', 'aa_inc'):
+                if os.path.join(split_dir, 'src', k_) not in incdirs:
+                    incdirs.append(os.path.join(split_dir, 'src', k_))
+            if sub == 'zz_inc':
+                decoy_dir = os.path.join(split_dir, 'src', 'aa_inc')
+                if not os.path.isdir(decoy_dir):
+                    os.makedirs(decoy_dir)
+                with open(os.path.join(decoy_dir, fn), 'w') as f:
+                    f.write(file_text(sch, part, incs, pre).replace('u16 ', 'u32 ').replace('u8 ', 'u64 ').replace('i16 ', 'i64 '))
     args = ['--quiet', '--python_out', out2]
     if want_cpp:
         args += ['--cpp_out', out2, '--cpp_full_out', out2]
